@@ -18,6 +18,10 @@ impl<T: ?Sized> RwLock<T> {
     pub fn write(&self) -> LockResult<RwLockWriteGuard<'_, T>> { assert!(self.state.get() == 0, "write() would block forever (held)"); self.state.set(-1); unsafe { G_WRITERS += 1; } Ok(RwLockWriteGuard { lock: self }) }
     pub fn get_mut(&mut self) -> LockResult<&mut T> { Ok(self.data.get_mut()) }
     pub fn readers(&self) -> isize { self.state.get() }
+    // rest of the std API that a realistic edit may use (so that it still compiles against the stub)
+    pub fn try_read(&self) -> Result<RwLockReadGuard<'_, T>, std::sync::TryLockError<RwLockReadGuard<'_, T>>> { if self.state.get() >= 0 { match self.read() { Ok(g) => Ok(g), Err(_) => unreachable!() } } else { Err(std::sync::TryLockError::WouldBlock) } }
+    pub fn try_write(&self) -> Result<RwLockWriteGuard<'_, T>, std::sync::TryLockError<RwLockWriteGuard<'_, T>>> { if self.state.get() == 0 { match self.write() { Ok(g) => Ok(g), Err(_) => unreachable!() } } else { Err(std::sync::TryLockError::WouldBlock) } }
+    pub fn is_poisoned(&self) -> bool { false }
 }
 impl<T: ?Sized> Deref for RwLockReadGuard<'_, T> { type Target = T; fn deref(&self) -> &T { unsafe { &*self.lock.data.get() } } }
 impl<T: ?Sized> Deref for RwLockWriteGuard<'_, T> { type Target = T; fn deref(&self) -> &T { unsafe { &*self.lock.data.get() } } }
@@ -31,6 +35,11 @@ unsafe impl<T: ?Sized + Send> Sync for Mutex<T> {}
 impl<T: Default> Default for Mutex<T> { fn default() -> Self { Mutex::new(T::default()) } }
 pub struct MutexGuard<'a, T: ?Sized> { lock: &'a Mutex<T> }
 impl<T> Mutex<T> { pub fn new(t: T) -> Self { Mutex { held: Cell::new(false), data: UnsafeCell::new(t) } } }
+impl<T: ?Sized> Mutex<T> {
+    pub fn try_lock(&self) -> Result<MutexGuard<'_, T>, std::sync::TryLockError<MutexGuard<'_, T>>> { if !self.held.get() { match self.lock() { Ok(g) => Ok(g), Err(_) => unreachable!() } } else { Err(std::sync::TryLockError::WouldBlock) } }
+    pub fn get_mut(&mut self) -> LockResult<&mut T> { Ok(self.data.get_mut()) }
+    pub fn is_poisoned(&self) -> bool { false }
+}
 impl<T: ?Sized> Mutex<T> { pub fn lock(&self) -> LockResult<MutexGuard<'_, T>> { assert!(!self.held.get()); self.held.set(true); Ok(MutexGuard { lock: self }) } }
 impl<T: ?Sized> Deref for MutexGuard<'_, T> { type Target = T; fn deref(&self) -> &T { unsafe { &*self.lock.data.get() } } }
 impl<T: ?Sized> DerefMut for MutexGuard<'_, T> { fn deref_mut(&mut self) -> &mut T { unsafe { &mut *self.lock.data.get() } } }
